@@ -255,18 +255,25 @@ func (s *S) Run(c *scen.Ctx) {
 func (s *S) onRequest(c *scen.Ctx, sc *world.SrvConn, req *refcodec.Request) {
 	rsp := world.Echo(req)
 	to := time.Duration(s.timeoutMs) * time.Millisecond
-	plan := simrt.Draw(11, "c08.plan")
+	plan := simrt.Draw(12, "c08.plan")
 	name := ""
-	first := time.Duration(-1)
-	send := func(r *refcodec.Response, d time.Duration) {
-		if r.RequestID == req.RequestID && (first < 0 || d < first) {
-			first = d
-		}
-		if d == 0 {
-			sc.Reply(r)
+	// wrote: the first real response of this request is on the wire now
+	wrote := func(r *refcodec.Response, err error) {
+		if err != nil || r.RequestID != req.RequestID {
 			return
 		}
-		simrt.Go(func() { simrt.Sleep(d); sc.Reply(r) })
+		s.mu.Lock()
+		if _, ok := s.replyAt[req.RequestID]; !ok {
+			s.replyAt[req.RequestID] = simrt.Elapsed()
+		}
+		s.mu.Unlock()
+	}
+	send := func(r *refcodec.Response, d time.Duration) {
+		if d == 0 {
+			wrote(r, sc.Reply(r))
+			return
+		}
+		simrt.Go(func() { simrt.Sleep(d); wrote(r, sc.Reply(r)) })
 	}
 	switch plan {
 	case 0, 1, 2:
@@ -305,6 +312,15 @@ func (s *S) onRequest(c *scen.Ctx, sc *world.SrvConn, req *refcodec.Request) {
 		c.Count("fault.reconnect_notice_with_calls_pending", 1)
 		send(&refcodec.Response{Version: 1, RequestID: 0, ResultDesc: "_reconnect_", Status: map[string]string{}}, 0)
 		send(rsp, time.Duration(simrt.Draw(150, "c08.d"))*time.Millisecond)
+	case 11:
+		// the response arrives in two pieces with a pause longer than the client's read time-out
+		// between them (a slow link, a peer that flushes in two steps)
+		name = "split across a pause"
+		c.Count("fault.response_split_across_pause", 1)
+		raw := refcodec.EncodeResponse(rsp)
+		k := 1 + simrt.Draw(len(raw)-1, "c08.splitat")
+		d := time.Duration(120+simrt.Draw(80, "c08.d")) * time.Millisecond
+		simrt.Go(func() { wrote(rsp, sc.WriteSplit(raw, k, d)) })
 	case 7:
 		name = "around-deadline"
 		c.Count("fault.response_near_deadline", 1)
@@ -325,9 +341,6 @@ func (s *S) onRequest(c *scen.Ctx, sc *world.SrvConn, req *refcodec.Request) {
 	}
 	s.mu.Lock()
 	s.plans[req.RequestID] = name
-	if first >= 0 {
-		s.replyAt[req.RequestID] = simrt.Elapsed() + first
-	}
 	if s.drop != nil && s.dropped == "" && (plan == 3 || plan >= 7) && simrt.Draw(2, "c08.dropnow") == 1 {
 		s.drop(strings.Split(sc.Srv.Addr, ":")[0])
 	}
